@@ -19,6 +19,7 @@ pub enum Note {
     Open { doc: usize, version: i32, kind: char },   // kind: v valid, i valid with an import, b broken
     Change { doc: usize, version: i32, kind: char },
     Close { doc: usize },
+    Save { doc: usize },   // didSave: carries no text; the server has nothing to re-analyse
 }
 
 fn text_for(version: i32, kind: char) -> String {
@@ -100,6 +101,7 @@ fn scenario(history: &[Note], rng: &mut Rng, dir: &str, serial: bool) -> (Vec<St
                 .params(json!({"textDocument": {"uri": run.uri(*doc), "version": version}, "contentChanges": [{"text": text_for(*version, *kind)}]}))
                 .finish(),
             Note::Close { doc } => Request::build("textDocument/didClose").params(json!({"textDocument": {"uri": run.uri(*doc)}})).finish(),
+            Note::Save { doc } => Request::build("textDocument/didSave").params(json!({"textDocument": {"uri": run.uri(*doc)}})).finish(),
         }
     };
     let mut futs: Vec<Option<Fut>> = Vec::new();
@@ -182,7 +184,7 @@ fn scenario(history: &[Note], rng: &mut Rng, dir: &str, serial: bool) -> (Vec<St
     let mut finals = Vec::new();
     for d in 0..2 {
         let uses = history.iter().any(|n| match n {
-            Note::Open { doc, .. } | Note::Change { doc, .. } | Note::Close { doc } => *doc == d,
+            Note::Open { doc, .. } | Note::Change { doc, .. } | Note::Close { doc } | Note::Save { doc } => *doc == d,
         });
         if !uses {
             continue;
@@ -292,6 +294,8 @@ fn gen_history(rng: &mut Rng) -> Vec<Note> {
         } else if rng.chance(1, 5) {
             h.push(Note::Close { doc });
             open[doc] = false;
+        } else if rng.chance(1, 4) {
+            h.push(Note::Save { doc });
         } else {
             h.push(Note::Change { doc, version, kind });
         }
@@ -299,15 +303,23 @@ fn gen_history(rng: &mut Rng) -> Vec<Note> {
     h
 }
 
+/// The history the model replays: opens, changes and closes (a save changes nothing and logs no receive event).
 fn enc_history(h: &[Note]) -> String {
     h.iter()
-        .map(|n| match n {
-            Note::Open { doc, version, kind } => format!("o{doc}.{version}.{kind}"),
-            Note::Change { doc, version, kind } => format!("g{doc}.{version}.{kind}"),
-            Note::Close { doc } => format!("c{doc}"),
+        .filter_map(|n| match n {
+            Note::Open { doc, version, kind } => Some(format!("o{doc}.{version}.{kind}")),
+            Note::Change { doc, version, kind } => Some(format!("g{doc}.{version}.{kind}")),
+            Note::Close { doc } => Some(format!("c{doc}")),
+            Note::Save { .. } => None,
         })
         .collect::<Vec<_>>()
         .join(",")
+}
+
+/// Where the saves were sent: `<position in the full notification sequence>.<doc>`.
+fn enc_saves(h: &[Note]) -> String {
+    let v: Vec<String> = h.iter().enumerate().filter_map(|(i, n)| match n { Note::Save { doc } => Some(format!("{i}.{doc}")), _ => None }).collect();
+    if v.is_empty() { "-".to_string() } else { v.join(",") }
 }
 
 pub fn run(out: &mut Out, tier: &str, seed: u64, scratch: &str) {
@@ -323,6 +335,9 @@ pub fn run(out: &mut Out, tier: &str, seed: u64, scratch: &str) {
         // close overtaking a pending analysis
         vec![Note::Open { doc: 0, version: 1, kind: 'i' }, Note::Close { doc: 0 }],
         vec![Note::Open { doc: 0, version: 1, kind: 'i' }, Note::Close { doc: 0 }, Note::Open { doc: 0, version: 2, kind: 'v' }],
+        // a save while a newer version is still being analysed, and a save before a change: neither may bring old text back
+        vec![Note::Open { doc: 0, version: 1, kind: 'v' }, Note::Change { doc: 0, version: 2, kind: 'i' }, Note::Save { doc: 0 }],
+        vec![Note::Open { doc: 0, version: 1, kind: 'i' }, Note::Save { doc: 0 }, Note::Change { doc: 0, version: 2, kind: 'v' }, Note::Save { doc: 0 }],
     ];
     let n_hist = if tier == "thorough" { 400 } else { 60 };
     for _ in 0..n_hist {
@@ -336,7 +351,7 @@ pub fn run(out: &mut Out, tier: &str, seed: u64, scratch: &str) {
             let (events, pubs, finals, actions) = scenario(h, &mut rng, &dir, serial);
             total += 1;
             out.case(
-                &format!("c18 run {} {}", enc_history(h), if events.is_empty() { "-".to_string() } else { events.join(",") }),
+                &format!("c18 run {} {} {}", enc_history(h), if events.is_empty() { "-".to_string() } else { events.join(",") }, enc_saves(h)),
                 &format!("{} pubs={} actions={}", finals.join(";"), if pubs.is_empty() { "-".into() } else { pubs.join(",") }, actions.trim().replace(' ', "_")),
             );
         }
